@@ -86,6 +86,29 @@ def module_jobs(ctx, n_gen, n_rej):
     for p in sorted(glob.glob(os.path.join(fw.VERIF, "corpus", "C17", "*.json"))):
         j = json.load(open(p, encoding="utf-8"))
         jobs.append({"id": "rej:" + j["id"], "files": {"m.emb": j["text"]}, "shared": True, "main": "m.emb"})
+    # seed-independent: names that are reserved in SEVERAL languages (the sections of compiler/front_end/reserved_words,
+    # read from the working tree), as field and as parameter name: a message that enumerates the languages must not
+    # depend on set iteration order
+    sections, lang = {}, None
+    try:
+        for line in open(os.path.join(fw.REPO, "compiler", "front_end", "reserved_words"), encoding="utf-8"):
+            t = line.strip()
+            if not t or t.startswith("#"):
+                continue
+            if t.startswith("--"):
+                lang = t[2:].strip()
+            else:
+                sections.setdefault(t, set()).add(lang)
+    except IOError:
+        pass
+    snake = [w for w in sorted(sections) if w.islower() and w.isidentifier()]
+    multi = sorted((w for w in snake if len(sections[w]) >= 2), key=lambda w: (-len(sections[w]), w))
+    single = [w for w in snake if len(sections[w]) == 1]
+    for w in multi[:6] + multi[len(multi) // 2:len(multi) // 2 + 3] + single[:2]:
+        jobs.append({"id": "rej:reserved-field:%s:%d" % (w, len(sections[w])), "shared": True, "main": "m.emb",
+                     "files": {"m.emb": '[$default byte_order: "LittleEndian"]\nstruct Foo:\n  0 [+1]  UInt  %s\n  1 [+1]  UInt  ok_name\n' % w}})
+        jobs.append({"id": "rej:reserved-parameter:%s:%d" % (w, len(sections[w])), "shared": True, "main": "m.emb",
+                     "files": {"m.emb": '[$default byte_order: "LittleEndian"]\nstruct Foo(%s: UInt:8):\n  0 [+1]  UInt  ok_name\n' % w}})
     seen = set()
     tries = 0
     while len([j for j in jobs if j["id"].startswith("fuzz:")]) < n_rej and tries < 50 * n_rej:
